@@ -1,0 +1,21 @@
+//go:build verif
+
+package pathbadger
+
+import "github.com/oasisprotocol/oasis-core/go/storage/mkvs/node"
+
+// VerifNodeFromDb forwards to the package-private nodeFromDb (the decoder of
+// the node database's internal value format).
+func VerifNodeFromDb(value []byte) (node.Node, error) {
+	return nodeFromDb(value)
+}
+
+// VerifDbPtr returns the (version, index) pair of a pointer decoded by
+// nodeFromDb; ok is false when the pointer carries no database pointer.
+func VerifDbPtr(p *node.Pointer) (version uint64, index uint32, ok bool) {
+	d, isDb := p.DBInternal.(*dbPtr)
+	if !isDb {
+		return 0, 0, false
+	}
+	return d.version, d.index, true
+}
